@@ -55,6 +55,31 @@ def scenarios(rng, tier):
                 s.op('esp32 0', ln, hx(fr[:ln]) if ln else '-')
             if rng.random() < 0.2: s.op('tick 0')
             if rng.random() < 0.2: s.op('adv', rng.choice([0, 1, 999, 1000, 30000, 61000]))
+    # narrow triggers: full observation lists at every MTU residue; a failing / once-failing MTU getter with a receive buffer
+    # smaller than the 1500-byte fallback and counters that fit 1500 but not the buffer; two interfaces sharing platform data
+    fam_full_lists(s, 'full', RESIDUE_MTUS[::2] if tier == 'quick' else RESIDUE_MTUS, extra=(1,))
+    for k, (mtu, cnt) in enumerate([(576, 39), (576, 60), (576, 104), (800, 55), (800, 104), (1000, 70), (576, 105)]):
+        for mode in ('mtufail=1', 'mtufailat=1', 'mtufailat=2'):
+            s.start('mtufb_%d_%s' % (k, mode.replace('=', ''))); s.lines.append('cfg 0 mtu=%d' % mtu); s.frame(0, discover(M, gen=1))
+            for i in range(30): s.frame(0, probe(mac(300 + i), OWN0, mac(300 + i), OWN0))
+            s.lines.append('cfg 0 %s' % mode)
+            s.frame(0, emit(M, OWN0, [(1, 0, mac(7), mac(8))] * 60, seq=3, count=cnt), 'ff')
+            s.lines.append('cfg 0 %s' % mode); s.frame(0, query(M, OWN0, seq=4))
+            s.lines.append('cfg 0 %s' % mode); s.frame(0, qlt(M, OWN0, 19, 0, seq=5)); s.frame(0, discover(M, gen=2))
+            s.lines.append('cfg 0 mtufail=0')
+            for f_ in (classify_frames if False else ()): pass
+            s.classify(0, discover(M, gen=1, stations=[OWN0] * 3, count=(65536 * 2 + 5) // 6 + 1), 'ff')
+    for k in range(6 if tier == 'quick' else 60):
+        s.start('multi_%d' % k); s.lines.append(gline(icon=bytes(range(250)) * rng.choice([1, 4, 20]), fname=b'friendly', hwid=bytes(range(1, 65))))
+        order = [rng.randrange(3) for _ in range(40)]
+        for c in range(3): s.frame(c, discover(M, gen=1))
+        for c in order:
+            own_c = own_of(c); r = rng.random()
+            if r < 0.3: s.frame(c, qlt(M, own_c, rng.choice([14, 14, 17, 19]), rng.choice([0, 0, 100]), seq=2))
+            elif r < 0.5: s.frame(c, reset(M, tos=rng.choice([0, 0, 1])))
+            elif r < 0.7: s.frame(c, probe(mac(40 + c), own_c, mac(40 + c), own_c))
+            elif r < 0.85: s.frame(c, query(M, own_c, seq=3))
+            else: s.frame(c, discover(M, gen=1, tos=rng.choice([0, 1])))
     return [(s.text(), {})]
 def project(blk, name, meta):
     return ('fault',) if blk.fault else ()
